@@ -47,9 +47,21 @@ FAMILIES = {
     'oxygen':  ('none', 'O2', ('h2comb', 'cocomb', 'ch4comb')),
     'water':   ('nat', 'H2O', ('elec', 'wgs', 'smr')),
 }
+# thorough tier only: two more phase-tagged triples, three triples with fractional / five-species stoichiometries
+FAMILIES_T = dict(FAMILIES)
+FAMILIES_T.update({
+    'ethanol-t': ('nat', 'Ethanol', ('etox', 'etcomb', 'etreform')),
+    'methane-t': ('nat', 'CH4', ('ch4comb', 'partox', 'smr')),
+    'glucose2':  ('none', 'Glucose', ('ferment', 'glucacid', 'glucreform')),
+    'methane2':  ('none', 'CH4', ('ch4mixed', 'dryreform', 'smr')),
+    'oxygen2':   ('none', 'O2', ('etmixed', 'ch4mixed', 'acetcomb')),
+})
+FAMILIES_ALL = FAMILIES_T
 XPATTERNS = {'A': (0.2, 0.5, 0.5), 'B': (0.5, 0.2, 0.2), 'inert': (0.5, 0.2, 0.0)}
 BASES = {'mol': ('mol', 'mol', 'mol'), 'wt': ('wt', 'wt', 'wt'), 'mixed': ('mol', 'wt', 'mol')}
+BASES_T = dict(BASES, mixed2=('wt', 'mol', 'wt'))
 KS = (0.5, 2.0)
+KS_T = (0.5, 2.0, 0.25, 3.0)
 NAMES = ('a', 'b', 'c', 'r')
 
 _loaded = False
@@ -106,14 +118,19 @@ class Arith(System):
     def reset_globals(self): rc.reset_reaction_globals()
     def depth(self, tier): return 2
     def describe(self, tier):
-        return dict(families={k: v[2] for k, v in FAMILIES.items()}, X_patterns=XPATTERNS, k=list(KS))
+        q = tier == 'quick'
+        return dict(families={k: v[2] for k, v in (FAMILIES if q else FAMILIES_T).items()}, X_patterns=XPATTERNS,
+                    bases=list(BASES if q else BASES_T), k=list(KS if q else KS_T))
+
+    ks = KS
 
     def configs(self, tier, seed):
+        self.ks = KS if tier == 'quick' else KS_T          # set in the master before the workers are forked
         cfgs = []
-        fams = list(FAMILIES)
+        fams = list(FAMILIES if tier == 'quick' else FAMILIES_T)
         for fi, fam in enumerate(fams):
             for xp in XPATTERNS:
-                for bs in BASES:
+                for bs in (BASES if tier == 'quick' else BASES_T):
                     if tier == 'quick':
                         # core: pattern A / mol for every family; one seed-selected deviation per family
                         dev = (xp != 'A') + (bs != 'mol')
@@ -128,7 +145,7 @@ class Arith(System):
     # ---- building -------------------------------------------------------------------------------------
     def build(self, config):
         fam, xp, bs = config
-        tag, reactant, names = FAMILIES[fam]
+        tag, reactant, names = FAMILIES_ALL[fam]
         tg = None if tag == 'none' else tag
         st = St()
         st.config = config
@@ -136,7 +153,7 @@ class Arith(System):
         st.tag = tg
         st.obj = {}
         st.val = {}
-        for nm, mname, X, basis in zip('abc', names, XPATTERNS[xp], BASES[bs]):
+        for nm, mname, X, basis in zip('abc', names, XPATTERNS[xp], BASES_T[bs]):
             ri = MENU_INDEX[mname]
             st.obj[nm] = rc.make_reaction(ri, reactant, X, 'str', tg, 'mol' if basis == 'mol' else 'wt-set')
             ref = rc.RefRxn(ri, reactant, X, tg)
@@ -156,7 +173,7 @@ class Arith(System):
                 if x != y:
                     acts.append(('sub', x, y))
                     acts.append(('iadd', x, y)); acts.append(('isub', x, y))
-            for k in KS:
+            for k in self.ks:
                 acts += [('mul', x, k), ('rmul', x, k), ('div', x, k), ('imul', x, k), ('idiv', x, k)]
             acts += [('neg', x), ('copy', x), ('rebase', x), ('back', x, None)]
             for pr in self._products(st, x): acts.append(('back', x, pr))
@@ -169,7 +186,7 @@ class Arith(System):
                     acts += [('itemX', i, v), ('heldX', i, v), ('setXi', i, v)]
             acts += [('setX', 0.125, 0.375), ('reduce',), ('pcopy', None), ('pcopy', 'other')]
             for i in (0, 1):
-                for k in KS:
+                for k in self.ks:
                     # arithmetic on an ITEM of the set: in-place forms act on that member only, binary forms spare the set
                     acts += [('itemimul', i, k), ('itemidiv', i, k), ('helditemimul', i, k), ('itemmul', i, k)]
         return acts
@@ -243,7 +260,7 @@ class Arith(System):
         out = []
         for kind, base in (('S', g), ('SR', m), ('A', m)):
             if v.phases:
-                tm = rc.tags_of(MENU_INDEX[FAMILIES[st.config[0]][2][0]], st.tag)
+                tm = rc.tags_of(MENU_INDEX[FAMILIES_ALL[st.config[0]][2][0]], st.tag)
                 arr = np.zeros((len(v.phases), N))
                 for i, ID in enumerate(IDS):
                     p = rc.NAT_PHASE[ID] if rc.NAT_PHASE[ID] in v.phases else v.phases[0]
@@ -388,7 +405,11 @@ class Arith(System):
             try:
                 new = ox.backwards(reactant=pr) if pr is not None else ox.backwards()
             except ValueError as e:
-                if pr is None and len(self._all_products(vx)) != 1:
+                # the library counts the positive entries of the stoichiometry AS STORED: after e.g. b -= (a + b) the cancelled
+                # species keep round-off residues (1e-17) that count as products; that reading decides whether the documented
+                # "must pass reactant" rejection is due
+                stored_products = int((np.array(ox._stoichiometry.to_array(), float) > 0).sum())
+                if pr is None and 'must pass reactant' in str(e) and (len(self._all_products(vx)) != 1 or stored_products != 1):
                     self._check_untouched(st, before, set(), match, 'backwards() that raised')
                     raise Rejected('ValueError:must pass reactant', cut=False)
                 raise Violation('unexpected-exception', f'ValueError: {e}', match=dict(match, exc='ValueError'))
@@ -590,7 +611,44 @@ class Arith(System):
 
     def outcome(self, st, a, obs):
         fam, xp, bs = st.config
-        return repr((a[0], bs, FAMILIES[fam][0], obs[0], tuple(a[1:2])))
+        return repr((a[0], bs, FAMILIES_ALL[fam][0], obs[0], tuple(a[1:2])))
+
+
+REDUCED = {
+    ('add', 'a', 'b'), ('add', 'r', 'a'), ('add', 'r', 'b'), ('add', 'r', 'r'), ('sub', 'a', 'b'), ('sub', 'b', 'a'), ('sub', 'r', 'a'), ('sub', 'r', 'b'),
+    ('sub', 'a', 'r'), ('iadd', 'a', 'b'), ('iadd', 'r', 'a'), ('iadd', 'a', 'r'), ('isub', 'a', 'b'), ('isub', 'r', 'b'), ('isub', 'b', 'r'),
+    ('mul', 'a', 2.0), ('rmul', 'r', 0.5), ('imul', 'a', 0.5), ('imul', 'r', 2.0), ('div', 'r', 2.0), ('idiv', 'a', 2.0), ('idiv', 'r', 0.5),
+    ('neg', 'a'), ('neg', 'r'), ('copy', 'r'), ('rebase', 'a'), ('rebase', 'r'),
+    ('pset', 'a', 'b'), ('pset', 'a', 'r'), ('itemX', 0, 0.25), ('heldX', 1, 0.25), ('setXi', 1, 0.0), ('setX', 0.125, 0.375), ('reduce',),
+    ('pcopy', None), ('pcopy', 'other'), ('itemimul', 0, 2.0), ('itemidiv', 1, 2.0), ('helditemimul', 0, 0.5), ('itemmul', 1, 2.0),
+}
+
+class Arith3(Arith):
+    """expression trees of depth 3 (thorough): the same heap and oracle as c17.arith over a reduced alphabet of 40 operations
+    (every operator / in-place form / set and set-item operation is represented, operands restricted to a, b and the result slot)
+    for every family, every conversion pattern, on the mol, mixed and wt bases.  The quick tier runs one family to depth 2 (a subset of the thorough space)."""
+    name = 'c17.arith.d3'
+    def depth(self, tier): return 2 if tier == 'quick' else 3
+    def configs(self, tier, seed):
+        self.ks = KS
+        if tier == 'quick': return [('glucose', 'A', 'mol')]
+        cfgs = [(fam, xp, bs) for fam in FAMILIES_T for xp in XPATTERNS for bs in ('mol', 'mixed', 'wt')]
+        k = seed % len(cfgs)
+        return cfgs[k:] + cfgs[:k]
+    def actions(self, st):
+        return [a for a in Arith.actions(self, st) if a in REDUCED]
+
+
+class ArithFull3(Arith):
+    """the FULL alphabet of c17.arith to depth 3 on 15 configurations (every family on the mol basis; mixed bases with fractional
+    coefficients, wt with an inert operand, phase-tagged with mixed bases); the quick tier runs the first one to depth 1"""
+    name = 'c17.arith.full3'
+    def depth(self, tier): return 1 if tier == 'quick' else 3
+    def configs(self, tier, seed):
+        self.ks = KS
+        if tier == 'quick': return [('glucose', 'A', 'mol')]
+        return ([(fam, 'A', 'mol') for fam in FAMILIES_T] +
+                [('oxygen', 'A', 'mixed'), ('methane2', 'inert', 'wt'), ('water', 'B', 'mixed2'), ('ethanol-t', 'inert', 'wt'), ('glucose2', 'B', 'mixed')])
 
 
 class Backwards(System):
@@ -603,10 +661,12 @@ class Backwards(System):
 
     def configs(self, tier, seed):
         cfgs = []
-        for ri in range(len(MENU)):
+        for ri in rc.menu_range(tier):
             for r in rc.reactants_of(ri):
-                for tag in ('none', 'nat'):
-                    for route in ('mol', 'wt-set'):
+                for tag in (('none', 'nat') if tier == 'quick' else ('none', 'nat', 'wg', 'ws', 'gl', 'vap')):
+                    if tag == 'wg' and 'H2O' not in MENU[ri][1]: continue
+                    if tag in ('ws', 'gl', 'vap') and rc.tags_of(ri, tag) in (rc.tags_of(ri, 'nat'), rc.tags_of(ri, 'wg')): continue
+                    for route in (('mol', 'wt-set') if tier == 'quick' else ('mol', 'wt-set', 'wt-direct')):
                         cfgs.append((ri, r, tag, route))
         k = seed % len(cfgs)
         return cfgs[k:] + cfgs[:k]
@@ -672,4 +732,4 @@ class Backwards(System):
     def outcome(self, st, a, obs): return repr((st.config[2], st.config[3], a[1] is None, a[2] is None, obs[0]))
 
 
-SYSTEMS = [Arith(), Backwards()]
+SYSTEMS = [Arith(), Arith3(), ArithFull3(), Backwards()]
